@@ -654,7 +654,7 @@ func (a *attack) apply(op Op) {
 			}
 		}
 		key := op.Key
-		if key != "idpenc" && key != "idpec" {
+		if key != "idpenc" && key != "idpec" && key != "lookalike" {
 			key = "attacker"
 		}
 		spec := &forge.SignSpec{Key: key}
@@ -1039,7 +1039,7 @@ func genOp(t *rapid.T) Op {
 	case "keyinfo":
 		op.Mode = rapid.SampledFrom([]string{"remove", "attacker-cert", "add-attacker-first", "add-attacker-last", "add-trusted-first", "add-trusted-last", "rsakeyvalue", "encryption-cert"}).Draw(t, "mode")
 	case "resign":
-		op.Key = rapid.SampledFrom([]string{"attacker", "attacker", "idpenc", "idpec"}).Draw(t, "key")
+		op.Key = rapid.SampledFrom([]string{"attacker", "attacker", "idpenc", "idpec", "lookalike"}).Draw(t, "key")
 		op.Mode = rapid.SampledFrom([]string{"own-cert", "claim-trusted-cert", "no-keyinfo", "rsakeyvalue", "chain-own-then-trusted", "chain-trusted-then-own"}).Draw(t, "mode")
 	case "comment":
 		op.Mode = rapid.SampledFrom([]string{"comment", "comment", "pi", "cdata"}).Draw(t, "mode")
@@ -1070,7 +1070,7 @@ func genOp(t *rapid.T) Op {
 
 func genGenuine(t *rapid.T, entry string) Genuine {
 	g := Genuine{NAssert: rapid.SampledFrom([]int{1, 1, 2}).Draw(t, "nassert")}
-	signer := rapid.SampledFrom([]string{"idp", "idp", "idp", "idp", "idp2", "idpenc", "attacker"}).Draw(t, "signer")
+	signer := rapid.SampledFrom([]string{"idp", "idp", "idp", "idp", "idp2", "idpenc", "attacker", "idpski", "lookalike"}).Draw(t, "signer")
 	layout := rapid.SampledFrom([]string{"resp", "assert", "both", "both", "neither", "first-only"}).Draw(t, "layout")
 	if layout == "resp" || layout == "both" {
 		g.RespSigner = signer
